@@ -88,11 +88,52 @@ static void case_c06(const args_t *a, long c, rng_t *r)
 	static const int POOL[] = {-1, -1, -1, 0, 1, 2, 4, 8};
 	int poolsz = PICK(r, POOL);
 	int outmode = rndn(r, 4);          /* 0,1 iterate fully; 2 abandon early; 3 sorter_write */
-	char tdir[4096]; snprintf(tdir, sizeof tdir, "%s/sort-%ld", a->workdir, c); mkdir(tdir, 0700);
+	char tdir[4096];
+	if (c % 2) snprintf(tdir, sizeof tdir, "%s/sort-%ld", a->workdir, c);
+	else { snprintf(tdir, sizeof tdir, "%s/sort %%%%d 100%%%% %%s-%ld", a->workdir, c); STAT("c06.temp_dir_name_with_percent_signs"); }   /* a directory name is data, never a format string */
+	mkdir(tdir, 0700);
 	pthread_mutex_lock(&mk_mu); snprintf(mk_expect_dir, sizeof mk_expect_dir, "%s", tdir); mk_count = 0; mk_outside = 0; pthread_mutex_unlock(&mk_mu);
 	mclos_t mc; memset(&mc, 0, sizeof mc); mc.universe = &uni;
 	/* failing merge function (only where the sorter can report it: no worker threads): if no call reports failure, nothing may be missing */
 	int failing = 0; size_t fail_want = 0;
+	if (poolsz > 0 && adds.n > want.n && rndn(r, 25) == 0) {
+		/* a pooled sorter cannot report a failed chunk through add(): on the unchanged code iteration then stops the process (assert).
+		   Run it in a child: stopping loudly, reporting failure, or a complete and correct output are fine; a silently incomplete output is not. */
+		size_t cand = 0, nc = 0;
+		for (size_t i = 0; i + 1 < flat.n; i++) if (key_cmp(flat.e[i].k.p, flat.e[i].k.n, flat.e[i + 1].k.p, flat.e[i + 1].k.n) == 0 && rndn(r, (uint32_t)++nc) == 0) cand = i;
+		if (nc) {
+			fflush(stdout);
+			pid_t pid = fork();
+			if (pid == 0) {
+				int nfd = open("/dev/null", O_WRONLY); dup2(nfd, 2);
+				alarm(120);
+				mclos_t fm; memset(&fm, 0, sizeof fm); fm.dso_style = 1; fm.have_fail = 1; fm.fail_key = flat.e[cand].k.p; fm.fail_len = flat.e[cand].k.n;
+				struct mtbl_threadpool *p2 = mtbl_threadpool_init(poolsz);
+				struct mtbl_sorter_options *so2 = mtbl_sorter_options_init();
+				char td2[4200]; snprintf(td2, sizeof td2, "%s/poolfail-%ld", a->workdir, c); mkdir(td2, 0700);
+				mtbl_sorter_options_set_temp_dir(so2, td2); mtbl_sorter_options_set_max_memory(so2, limit);
+				mtbl_sorter_options_set_merge_func(so2, ms_merge_cb, &fm); mtbl_sorter_options_set_threadpool(so2, p2);
+				struct mtbl_sorter *s2 = mtbl_sorter_init(so2);
+				for (size_t i = 0; i < adds.n; i++) if (mtbl_sorter_add(s2, adds.e[i].k.p, adds.e[i].k.n, adds.e[i].v.p, adds.e[i].v.n) != mtbl_res_success) _exit(0);   /* reported */
+				struct mtbl_iter *it2 = mtbl_sorter_iter(s2);
+				if (!it2) _exit(0);
+				const uint8_t *k, *v; size_t lk, lv, i = 0;
+				size_t fw = model_lb(&want, fm.fail_key, fm.fail_len);
+				while (mtbl_iter_next(it2, &k, &lk, &v, &lv) == mtbl_res_success) {
+					if (i >= want.n || key_cmp(k, lk, want.e[i].k.p, want.e[i].k.n) != 0) _exit(3);
+					if (i != fw && (lv != want.e[i].v.n || memcmp(v, want.e[i].v.p, lv) != 0)) _exit(3);
+					i++;
+				}
+				_exit(i == want.n || i == fw ? 0 : 3);      /* complete, or stopped exactly at the failing key */
+			}
+			int st; waitpid(pid, &st, 0);
+			if (WIFEXITED(st) && WEXITSTATUS(st) == 3) viol("C06/pooled-sorter-silently-incomplete-after-merge-failure", "pooled sorter (pool %d, max_memory %zu): the merge function failed inside a chunk job, every call reported success, and the output is missing or misplacing keys", poolsz, limit);
+			else statf(1, "c06.failing_merge_pooled.%s", WIFSIGNALED(st) ? (WTERMSIG(st) == SIGALRM ? "hung?" : "process-stopped-loudly") : "reported-or-complete");
+			if (WIFSIGNALED(st) && WTERMSIG(st) == SIGALRM) inconclusive("pooled failing-merge child exceeded its watchdog");
+			char cmd[4400]; snprintf(cmd, sizeof cmd, "rm -rf '%s/poolfail-%ld'", a->workdir, c); if (system(cmd)) {}
+			STAT("c06.failing_merge_pooled.cases");
+		}
+	}
 	if (poolsz <= 0 && adds.n > want.n && rndn(r, 12) == 0) {
 		size_t cand = 0, nc = 0;
 		for (size_t i = 0; i + 1 < flat.n; i++) if (key_cmp(flat.e[i].k.p, flat.e[i].k.n, flat.e[i + 1].k.p, flat.e[i + 1].k.n) == 0 && rndn(r, (uint32_t)++nc) == 0) cand = i;
